@@ -165,10 +165,22 @@ def range_kernel(o):
     import kanirun
     from vcommon import src_ref, Findings
     k = 6 if tier() == "thorough" else 4
-    h = "h_unicode::c16_h4_range_k%d" % k
+    # ... and the other direction: the cursor position of a request becomes the byte offset the handlers look nodes up at
+    # (harness c16_h2_pos2off: every position, against a byte-level reference)
+    hs = ["h_unicode::c16_h4_range_k%d" % k, "h_unicode::c16_h2_pos2off_k%d" % k]
     o.functions.append(src_ref("oal-client/src/lsp/unicode.rs", "fn utf8_range_to_position"))
-    o.bounds["range conversion (Kani)"] = "every text of <= %d Unicode scalar values, every span on character boundaries; unwind 4K+2 with unwinding assertions" % k
-    return kanirun.decide(o, "kern", [h], lambda _h: "src/h_unicode.rs", timeout=900 if tier() == "quick" else 3000, findings=Findings())
+    o.functions.append(src_ref("oal-client/src/lsp/unicode.rs", "fn position_to_utf8"))
+    o.bounds["position conversions (Kani)"] = "every text of <= %d Unicode scalar values, every span on character boundaries, every (line, character); unwind 4K+2 with unwinding assertions" % k
+    res = kanirun.decide(o, "kern", hs, lambda _h: "src/h_unicode.rs", timeout=1500 if tier() == "quick" else 3000, findings=Findings())
+    undecided = [h for h, r in res.items() if r["verdict"] not in ("SUCCESSFUL", "FAILED")]
+    if undecided and not o.violations:
+        # code CBMC cannot digest within the limit: the harness conditions replayed natively over a small alphabet decide
+        import props.c16 as c16
+        dev, ndir = c16.native_replay(o, o.prop)
+        if dev:
+            o.violation("position conversion deviates from the byte-level reference (native replay; %s did not finish under Kani): %s" % (
+                ", ".join(h.split("::")[-1] for h in undecided), "; ".join(dev[:3])), ndir)
+    return res
 
 
 def check():
@@ -309,6 +321,9 @@ def replay(path):
     if "h_unicode" in os.path.basename(os.path.normpath(path)):
         import kanirun
         return kanirun.replay_saved(path)
+    if "native" in os.path.basename(os.path.normpath(path)):
+        import props.c16 as c16
+        return c16.replay(path)
     import lspcorpus
     probs, detail = lspcorpus.run(new_replay_dir("C17", "lsp-corpus"), want=("definition", "references"))
     print(detail)
